@@ -14,12 +14,30 @@ import (
 
 func ghostKey(kind, name string) string { return "ghost:" + kind + ":" + name }
 
+var stableGhostKinds = map[string]string{"cnt": "Int", "at": "Int", "seq": "Int", "nil": "Bool", "errnil": "Bool"}
+
 func (ex *Exec) ghostRead(p *Path, kind, name, sort string) string {
-	return "(select " + ex.heapArr(p, ghostKey(kind, name), sort) + " null)"
+	key := ghostKey(kind, name)
+	heap := p.heap
+	if p.inOld && p.oldHeap != nil {
+		heap = p.oldHeap
+	}
+	if _, ok := heap[key]; !ok && !p.inOld {
+		if _, stable := stableGhostKinds[kind]; !stable {
+			// argument/result cells have no meaning before the event was recorded on this path
+			p.heap[key] = ex.c.Fresh("H:"+key, "(Array Ref "+sort+")")
+		}
+	}
+	return "(select " + ex.heapArr(p, key, sort) + " null)"
 }
 
 func (ex *Exec) ghostWrite(p *Path, kind, name, sort, val string) {
 	key := ghostKey(kind, name)
+	if _, ok := p.heap[key]; !ok {
+		if _, stable := stableGhostKinds[kind]; !stable {
+			p.heap[key] = ex.c.Fresh("H:"+key, "(Array Ref "+sort+")")
+		}
+	}
 	p.heap[key] = "(store " + ex.heapArr(p, key, sort) + " null " + val + ")"
 }
 
@@ -68,6 +86,7 @@ func (ex *Exec) recordEvent(p *Path, name string, args []Value, results []Value,
 	ex.ghostWrite(p, "seq", "*", "Int", "(+ "+seq+" 1)")
 	ex.ghostWrite(p, "at", name, "Int", "(+ "+seq+" 1)")
 	if len(results) > 0 {
+		ex.ghostWrite(p, "ret", name, ex.c.SortOf(results[0].Ty), results[0].T)
 		r := results[0]
 		switch ex.c.SortOf(r.Ty) {
 		case "Ref", "Iface":
@@ -77,9 +96,11 @@ func (ex *Exec) recordEvent(p *Path, name string, args []Value, results []Value,
 			last := results[len(results)-1]
 			if s := ex.c.SortOf(last.Ty); s == "Iface" || s == "Ref" {
 				ex.ghostWrite(p, "errnil", name, "Bool", ex.isNilTerm(last))
+				ex.ghostWrite(p, "err", name, s, last.T)
 			}
 		} else if s := ex.c.SortOf(r.Ty); s == "Iface" || s == "Ref" {
 			ex.ghostWrite(p, "errnil", name, "Bool", ex.isNilTerm(r))
+			ex.ghostWrite(p, "err", name, s, r.T)
 		}
 	}
 	for i, a := range args {
@@ -201,8 +222,109 @@ func (ex *Exec) ghostBuiltin(p *Path, name string, call *ast.CallExpr) ([]Value,
 		return []Value{{ex.ghostRead(p, "arg"+strArg(1), strArg(0), "String"), types.Typ[types.String]}}, true
 	case "lastArgIface":
 		return []Value{{ex.ghostRead(p, "arg"+strArg(1), strArg(0), "Iface"), types.NewInterfaceType(nil, nil)}}, true
+	case "lastErr":
+		return []Value{{ex.ghostRead(p, "err", strArg(0), "Iface"), types.Universe.Lookup("error").Type()}}, true
+	case "lastRetIface":
+		return []Value{{ex.ghostRead(p, "ret", strArg(0), "Iface"), types.NewInterfaceType(nil, nil)}}, true
+	case "lastRetRef":
+		return []Value{{ex.ghostRead(p, "ret", strArg(0), "Ref"), types.Typ[types.UnsafePointer]}}, true
+	case "errorsAs":
+		// errorsAs(err, T): would errors.As(err, &target) with target of type T succeed?
+		t, err := ex.w.ResolveType(call.Args[1], ex.pkg)
+		if err != nil {
+			ex.unsupp(call.Pos(), "%v", err)
+		}
+		v := ex.eval(p, call.Args[0])
+		okF := ex.c.Fun("errors.As#ok", []string{"Iface", "Int"}, "Bool")
+		return []Value{{app(okF, v.T, fmt.Sprint(ex.c.TID(t))), types.Typ[types.Bool]}}, true
 	case "lastArgRef":
 		return []Value{{ex.ghostRead(p, "arg"+strArg(1), strArg(0), "Ref"), types.Typ[types.UnsafePointer]}}, true
 	}
 	return nil, false
+}
+
+// reachableEvents: the event names a call to the function may raise (transitively through emitted functions).
+func (ex *Exec) reachableEvents(fi *FuncInfo, seen map[string]bool, out map[string]bool) {
+	full := fi.Obj.FullName()
+	if seen[full] {
+		return
+	}
+	seen[full] = true
+	info := fi.Pkg.TypesInfo
+	ast.Inspect(fi.Decl.Body, func(n ast.Node) bool {
+		call, ok := n.(*ast.CallExpr)
+		if !ok {
+			return true
+		}
+		saveInfo := ex.info
+		ex.info = info
+		fn := ex.calleeOf(call)
+		ex.info = saveInfo
+		if fn != nil {
+			saveT := ex.traceEvents
+			ex.traceEvents = true
+			name, isEv := ex.eventName(fn, call)
+			ex.traceEvents = saveT
+			if isEv {
+				out[name] = true
+			}
+			if ex.emittedPkg(fn) {
+				f2 := fn
+				if fn.Origin() != nil {
+					f2 = fn.Origin()
+				}
+				if callee := ex.w.Funcs[f2.FullName()]; callee != nil && callee.Decl.Body != nil {
+					ex.reachableEvents(callee, seen, out)
+				}
+			}
+			return true
+		}
+		// function value call: named after the identifier
+		switch f := unparen(call.Fun).(type) {
+		case *ast.Ident:
+			if tv, ok := info.Types[call.Fun]; ok && !tv.IsType() && !tv.IsBuiltin() {
+				out[f.Name] = true
+			}
+		case *ast.SelectorExpr:
+			if tv, ok := info.Types[call.Fun]; ok && !tv.IsType() {
+				out[f.Sel.Name] = true
+			}
+		}
+		return true
+	})
+}
+
+// havocEventsOf forgets the ghost cells of every event the callee may raise.
+func (ex *Exec) havocEventsOf(p *Path, fi *FuncInfo) {
+	evs := map[string]bool{}
+	ex.reachableEvents(fi, map[string]bool{}, evs)
+	if len(evs) == 0 {
+		return
+	}
+	evs["*"] = true
+	for name := range evs {
+		for kind, sort := range stableGhostKinds {
+			if (kind == "seq") != (name == "*") {
+				continue
+			}
+			key := ghostKey(kind, name)
+			p.heap[key] = ex.c.Fresh("H:"+key, "(Array Ref "+sort+")")
+		}
+	}
+	for k := range p.heap {
+		if !strings.HasPrefix(k, "ghost:") {
+			continue
+		}
+		parts := strings.SplitN(k, ":", 3)
+		if len(parts) == 3 && evs[parts[2]] {
+			if _, stable := stableGhostKinds[parts[1]]; stable {
+				continue
+			}
+			if sortOf := ex.sortOfHeapTerm(p.heap[k]); sortOf != "" {
+				p.heap[k] = ex.c.Fresh("H:"+k, sortOf)
+			} else {
+				delete(p.heap, k)
+			}
+		}
+	}
 }
